@@ -87,6 +87,7 @@ func toPointerTags(ts []PTag) []encrypt.PointerTag {
 	return out
 }
 func (t TMap) Tags() ([]encrypt.PointerTag, error) {
+	fireTagsHook()
 	id, _ := t["__id"].(int)
 	return toPointerTags(tagRegistry[id]), nil
 }
@@ -96,6 +97,7 @@ func (t TMap) Tags() ([]encrypt.PointerTag, error) {
 type PTMap map[string]interface{}
 
 func (t *PTMap) Tags() ([]encrypt.PointerTag, error) {
+	fireTagsHook()
 	id, _ := (*t)["__id"].(int)
 	return toPointerTags(tagRegistry[id]), nil
 }
@@ -107,7 +109,10 @@ type PTStruct struct {
 	M   map[string]interface{}
 }
 
-func (t *PTStruct) Tags() ([]encrypt.PointerTag, error) { return toPointerTags(tagRegistry[t.ID]), nil }
+func (t *PTStruct) Tags() ([]encrypt.PointerTag, error) {
+	fireTagsHook()
+	return toPointerTags(tagRegistry[t.ID]), nil
+}
 
 // TStructA: a Taggable struct whose tags point into its two map fields
 type TStructA struct {
@@ -119,7 +124,10 @@ type TStructA struct {
 	MS   map[string]string
 }
 
-func (t TStructA) Tags() ([]encrypt.PointerTag, error) { return toPointerTags(tagRegistry[t.ID]), nil }
+func (t TStructA) Tags() ([]encrypt.PointerTag, error) {
+	fireTagsHook()
+	return toPointerTags(tagRegistry[t.ID]), nil
+}
 
 // TStructB: a Taggable struct with Taggable fields (filtered with withIgnoreTaggable)
 type TStructB struct {
@@ -130,7 +138,10 @@ type TStructB struct {
 	L   []TMap
 }
 
-func (t TStructB) Tags() ([]encrypt.PointerTag, error) { return toPointerTags(tagRegistry[t.ID]), nil }
+func (t TStructB) Tags() ([]encrypt.PointerTag, error) {
+	fireTagsHook()
+	return toPointerTags(tagRegistry[t.ID]), nil
+}
 
 // UnexpA: unexported fields (reflect.StructOf cannot make them)
 type UnexpA struct {
@@ -203,9 +214,44 @@ type EWI struct {
 	P    interface{}
 }
 
-func (p *EWI) EventId() string  { return p.EvID }
-func (p *EWI) HmacSalt() []byte { return p.Salt }
-func (p *EWI) HmacInfo() []byte { return p.Info }
+// (nil-safe: a typed nil *EWI in the payload interface still implements EventWrapperInfo - with an empty event id)
+func (p *EWI) EventId() string {
+	if p == nil {
+		return ""
+	}
+	return p.EvID
+}
+func (p *EWI) HmacSalt() []byte {
+	if p == nil {
+		return nil
+	}
+	return p.Salt
+}
+func (p *EWI) HmacInfo() []byte {
+	if p == nil {
+		return nil
+	}
+	return p.Info
+}
+
+// Embedded structs: an exported one (its fields are filtered like those of any struct field) and an unexported one (not
+// reachable by reflection: left alone - and zero in the forwarded copy, F10)
+type EmbInner struct {
+	Sec string `class:"secret"`
+	Pub string `class:"public"`
+}
+type embHidden struct {
+	Sec string `class:"secret"`
+	N   int
+}
+type EmbA struct {
+	EmbInner
+	Unt string
+}
+type EmbU struct {
+	embHidden
+	Sens string `class:"sensitive"`
+}
 
 // Rot: a payload implementing RotateWrapper
 type Rot struct {
@@ -214,26 +260,57 @@ type Rot struct {
 	Info []byte
 }
 
-func (r *Rot) Wrapper() wrapping.Wrapper { return r.W }
-func (r *Rot) HmacSalt() []byte          { return r.Salt }
-func (r *Rot) HmacInfo() []byte          { return r.Info }
+// (nil-safe: a typed nil *Rot in the payload interface is a rotation payload that rotates nothing)
+func (r *Rot) Wrapper() wrapping.Wrapper {
+	if r == nil {
+		return nil
+	}
+	return r.W
+}
+func (r *Rot) HmacSalt() []byte {
+	if r == nil {
+		return nil
+	}
+	return r.Salt
+}
+func (r *Rot) HmacInfo() []byte {
+	if r == nil {
+		return nil
+	}
+	return r.Info
+}
+
+// RotV: RotateWrapper through VALUE receivers - a rotation payload handed over by value (and by pointer)
+type RotV struct {
+	W    wrapping.Wrapper
+	Salt []byte
+	Info []byte
+}
+
+func (r RotV) Wrapper() wrapping.Wrapper { return r.W }
+func (r RotV) HmacSalt() []byte          { return r.Salt }
+func (r RotV) HmacInfo() []byte          { return r.Info }
 
 var handTypes = map[string]reflect.Type{
-	"TStructA": reflect.TypeOf(TStructA{}),
-	"TStructB": reflect.TypeOf(TStructB{}),
-	"UnexpA":   reflect.TypeOf(UnexpA{}),
-	"EWI":      reflect.TypeOf(EWI{}),
-	"PTStruct": reflect.TypeOf(PTStruct{}),
-	"LocalA":   localTypeA(),
-	"LocalB":   localTypeB(),
-	"LocalC":   localTypeC(),
-	"LocalD":   localTypeD(),
-	"LocalE":   localTypeE(),
-	"Ign":      reflect.TypeOf(Ign{}),
+	"TStructA":  reflect.TypeOf(TStructA{}),
+	"TStructB":  reflect.TypeOf(TStructB{}),
+	"UnexpA":    reflect.TypeOf(UnexpA{}),
+	"EWI":       reflect.TypeOf(EWI{}),
+	"PTStruct":  reflect.TypeOf(PTStruct{}),
+	"LocalA":    localTypeA(),
+	"LocalB":    localTypeB(),
+	"LocalC":    localTypeC(),
+	"LocalD":    localTypeD(),
+	"LocalE":    localTypeE(),
+	"Ign":       reflect.TypeOf(Ign{}),
+	"EmbA":      reflect.TypeOf(EmbA{}),
+	"EmbU":      reflect.TypeOf(EmbU{}),
+	"EmbInner":  reflect.TypeOf(EmbInner{}),
+	"embHidden": reflect.TypeOf(embHidden{}),
 }
 
 // names <-> N
-var fixedNames = []string{"", "ID", "Pub", "Sens", "Unt", "M", "MS", "Sec", "T", "L", "hidden", "hiddenS", "N", "EvID", "Salt", "Info", "P", "Value", "Name", "Token", "Note", "Extra", "Key", "Secret"}
+var fixedNames = []string{"", "ID", "Pub", "Sens", "Unt", "M", "MS", "Sec", "T", "L", "hidden", "hiddenS", "N", "EvID", "Salt", "Info", "P", "Value", "Name", "Token", "Note", "Extra", "Key", "Secret", "EmbInner", "embHidden"}
 
 func nameNok(s string) (int, bool) {
 	if len(s) > 1 && (s[0] == 'F' || s[0] == 'k') {
@@ -330,6 +407,15 @@ func typeOf(v *V) reflect.Type {
 		return tTMap
 	case "ptmap":
 		return tPTMap
+	case "imap": // a map whose keys are no strings
+		if len(v.Vals) > 0 && v.Vals[0].K != "str" {
+			return reflect.MapOf(tInt, typeOf(v.Vals[0]))
+		}
+		return reflect.MapOf(tInt, tString)
+	case "nilmap":
+		return reflect.MapOf(tString, tIface)
+	case "nilstrs":
+		return tStrs
 	}
 	panic("typeOf " + v.K)
 }
@@ -442,6 +528,14 @@ func valueOf(v *V) reflect.Value {
 			r.SetMapIndex(reflect.ValueOf(k), valueOf(v.Vals[i]))
 		}
 		return r
+	case "imap":
+		r := reflect.MakeMap(t)
+		for i, e := range v.Vals {
+			r.SetMapIndex(reflect.ValueOf(i+1), valueOf(e))
+		}
+		return r
+	case "nilmap", "nilstrs":
+		return reflect.Zero(t)
 	case "tmap":
 		m := TMap{"__id": regTags(v.Tags)}
 		for i, k := range v.Keys {
@@ -575,6 +669,16 @@ func (p *projector) litp(rv reflect.Value, viaPtr bool) string {
 				}
 			}
 			tg = tagsLit(tagRegistry[id], false)
+		}
+		if rv.Type().Key().Kind() != reflect.String {
+			// keys that are no strings (outside the model): entries in key order, the key as the entry's number
+			ks := rv.MapKeys()
+			sort.Slice(ks, func(i, j int) bool { return ks[i].Int() < ks[j].Int() })
+			items := make([]string, len(ks))
+			for i, k := range ks {
+				items[i] = "(" + hc.N(int(k.Int())) + ", " + p.lit(rv.MapIndex(k)) + ")"
+			}
+			return "(VMap None " + hc.List(items) + ")"
 		}
 		var keys []string
 		for _, k := range rv.MapKeys() {
